@@ -105,6 +105,9 @@ func genOpts(r *rand.Rand) *neat.Options {
 	o.PopSize = pick(r, 3, 4, 5, 8, 13, 20, 33, 50, 80, 120, 150)
 	o.DropOffAge = 1 + r.Intn(20)
 	o.NewLinkTries = 1 + r.Intn(40)
+	if r.Intn(8) == 0 {
+		o.NewLinkTries = pick(r, 300, 1000, 3000) // long searches for an open link
+	}
 	o.BabiesStolen = pick(r, 0, 0, 1, 3, 10, o.PopSize/2)
 	if o.BabiesStolen > o.PopSize/2 {
 		o.BabiesStolen = o.PopSize / 2
